@@ -90,7 +90,7 @@ def q1(run: Run, prog: Program, masters):
                 run.add("Q1", f"{f.qualname}/while", f"{f.module.relpath}:{node.lineno}",
                         f"loop condition reads silence_level in {f.qualname}")
     run.count("Q1", n_cond)
-    run.floor("silence_level conditions", n_cond, 100)
+    run.floor("silence_level conditions", n_cond, 100, hard=True)
 
 
 # ---------------------------------------------------------------------------
@@ -1200,7 +1200,7 @@ def check(run: Run, prog: Program, cy: CyProgram):
         "floating-point summation order is not considered",
         "np.array_split partitions its input (numpy contract)"]
     masters = find_masters(prog)
-    run.floor("MPI master loops", len(masters), 3)
+    run.floor("MPI master loops", len(masters), 3, hard=True)
     q1(run, prog, [m.f for m in masters] +
        [prog.classes["Network"].methods["_nsi_betweenness"]])
     for m in masters:
